@@ -1065,6 +1065,22 @@ end:
 	return x, nil
 }
 `
+	src += `type Link *Link
+type RingA *RingB
+type RingB *RingA
+type holderOfLinks struct {
+	next Link
+	a    RingA
+}
+func exoticCyclicPointers(l Link, a RingA) (Link, RingB) {
+	var x Link
+	var y RingB = new(RingA)
+	z := new(Link)
+	_ = holderOfLinks{next: x, a: a}
+	_, _ = z, l
+	return x, y
+}
+`
 	src += `//line a.go:9
 func exoticLineDirective(x *$T) { x.F = 99 }
 //line a.go:12:3
